@@ -17,8 +17,11 @@ LEVEL = "exploration"
 RULE = (
     "(a) BucketBatchSampler: every assignment of n <= 6 (thorough 7) indices to B <= 3 buckets x every size "
     "map in {1,2,3}^B x every sampler order (all permutations for n <= 5 (6), identity/reversed/rotated "
-    "above) x drop_incomplete, iterated twice; clauses of the property checked one by one, plus the "
-    "documented yield order. (b) Spect/Lang loaders on real tmpfs directories whose every cell encodes "
+    "above) x drop_incomplete, iterated twice, then once more interleaved (a pass abandoned after one batch, "
+    "a full pass in between, the first pass resumed) and the batch objects of the first pass re-read at the end; "
+    "bucket ids 0..B-1 and, for n <= 4, strings, tuples and the negative ints -1,-2,3 (hash(-1) == hash(-2)); "
+    "clauses of the property checked one by one, plus the documented yield order where docs (hash order) and "
+    "code (id order) agree, i.e. for non-negative int ids. (b) Spect/Lang loaders on real tmpfs directories whose every cell encodes "
     "its utterance: every length multiset over {1,2,3}, n in 0..5 utterances, in a fixed non-monotone "
     "arrangement (thorough: every length tuple for n <= 4); 'structure' pass = batch_size 1..3 x "
     "num_length_buckets 1..3 x size_batch_by_length x drop_last x {sequential, shuffle seed 0, 1}; "
@@ -32,7 +35,14 @@ RULE = (
     "delivered twice by two loaders). (c) extract_window for every "
     "(T<=4, left<=2, right<=2, reverse, centre) and ContextWindowDataLoader on directories against the "
     "edge-replicating reference; the three *_seq_to_batch functions called directly with None patterns. "
-    "(d, thorough) loaders inside simulated process groups W<=3, every rank, 3 uneven modes x drop_last. "
+    "(d) loaders inside simulated process groups W in {2,3}, every rank, modes raise/uneven/ignore x drop_last x "
+    "{sequential, shuffle seeds 0,1} x num_length_buckets 1..3 x size_batch_by_length: quick = 4 corpora with ties "
+    "(3,4,5,6 utterances), batch_size 1..2, two epochs + fresh loader; thorough = every multiset corpus, three epochs. "
+    "(e) object histories: in the structure pass and for rank 0 of pass (d) a pass is abandoned after its first "
+    "batch, len() asked, a second pass run and the first resumed - both must equal epoch 0 of the history. "
+    "(f) the *_seq_to_batch functions also with inputs that require grad / are non-contiguous offset views, inputs "
+    "compared with their values afterwards, the previous call's result re-read after the next call; loaders and "
+    "window loaders constructed and iterated under torch.set_default_dtype(float64). "
     "Distinct by construction within a pass (a configuration met by two passes is run with different "
     "histories); non-trivial = at least 2 utterances/indices."
 )
@@ -44,7 +54,9 @@ ASSUMPTIONS = [
     "x * class-max <= corpus-max * batch_size when sizing by length)",
     "collation flags are independent of the batching structure except through the data set items; the joint "
     "pass covers the interaction completely only for n <= 2 in the quick tier",
-    "process groups are simulated at the four torch.distributed queries (thorough tier only)",
+    "process groups are simulated at the four torch.distributed queries (reduced pass in the quick tier, full in thorough)",
+    "the value len(loader) reports in the middle of a pass is not constrained (only asked, as a disturbance)",
+    "the order of left-over batches is compared only for non-negative int bucket ids (docs say hash order, code id order)",
 ]
 BUDGET_S = {"quick": 240, "thorough": 2400}
 
@@ -72,6 +84,7 @@ def _batchings(seeds=(None, 0, 1), bss=(1, 2, 3), drops=(False, True)):
     return out
 
 
+DIST_CORPORA = [(3, 1, 1), (2, 3, 1, 2), (3, 1, 3, 2, 2), (1, 3, 2, 2, 3, 1)]
 BATCHINGS_SMALL = [dict(bs=2, B=1, dyn=False, drop=False, seed=None), dict(bs=2, B=2, dyn=True, drop=False, seed=None),
                    dict(bs=2, B=1, dyn=False, drop=False, seed=0), dict(bs=2, B=2, dyn=True, drop=False, seed=0)]
 
@@ -103,6 +116,7 @@ def shards(tier, seed):
         out += [{"part": "struct", "kind": k, "i": i, "of": s} for k, s in (("spect", 8), ("lang", 4)) for i in range(s)]
         out += [{"part": "collate", "kind": k, "i": i, "of": s} for k, s in (("spect", 12), ("lang", 4)) for i in range(s)]
         out += [{"part": "joint", "kind": k, "i": i, "of": s} for k, s in (("spect", 6), ("lang", 2)) for i in range(s)]
+        out += [{"part": "dist", "kind": k, "i": i, "of": 4} for k in ("spect", "lang") for i in range(4)]
     out += [{"part": "window", "i": i, "of": 4} for i in range(4)]
     out += [{"part": "direct"}]
     only = os.environ.get("VERIF_C14_PARTS")  # development aid: run a subset of the passes (never set by MANIFEST)
@@ -121,8 +135,14 @@ def _bucket_case(ctx, order, assign, sizes, drop, ids):
     sig = {"api": "BucketBatchSampler", "drop_incomplete": drop}
     try:
         bs = data.BucketBatchSampler(list(order), idx2bucket, bucket2size, drop)
-        out = [list(b) for b in bs]
+        raw = list(bs)  # the yielded objects themselves are kept: later passes must not change them
+        out = [list(b) for b in raw]
         again = [list(b) for b in bs]
+        # object history: a pass abandoned after one batch, a complete pass in between, the first pass resumed
+        it = iter(bs)
+        head = [list(b) for b in itertools.islice(it, 1)]
+        between = [list(b) for b in bs]
+        resumed = head + [list(b) for b in it]
     except Exception as e:
         ctx.violation(dict(sig, symptom="raises", type=type(e).__name__), case, {"error": str(e)[-300:]})
         return
@@ -134,6 +154,18 @@ def _bucket_case(ctx, order, assign, sizes, drop, ids):
     if again != out:
         ctx.violation(dict(sig, symptom="second-iteration-differs"), case, {"first": out, "second": again})
         return
+    if between != out or resumed != out:
+        ctx.violation(dict(sig, symptom="interleaved-passes-differ-from-single-pass"), case,
+                      {"single": out, "between": between, "resumed": resumed})
+        return
+    if [list(b) for b in raw] != out:
+        ctx.violation(dict(sig, symptom="yielded-batch-changed-by-later-pass"), case, {"first": out,
+                                                                                       "now": [list(b) for b in raw]})
+        return
+    if not all(isinstance(b, int) and b >= 0 for b in ids):
+        # the docs order the left-over batches by the ids' hashes, the code by the ids: only for non-negative
+        # ints both agree, so only there the yield order is compared
+        return out
     doc = O.bucket_batches(order, idx2bucket, bucket2size, drop)
     if out != doc:
         ctx.violation(dict(sig, symptom="yield-order-differs-from-documented"), case, {"observed": out, "documented": doc})
@@ -152,8 +184,9 @@ def _run_bucket(ctx, spec, tier):
             ident = tuple(range(n))
             orders = [ident, ident[::-1], ident[n // 2:] + ident[: n // 2]]
         id_sets = [tuple(range(B))]
-        if n <= 3:
-            id_sets.append(("a", "b", "c")[:B])  # any hashable, sortable bucket id
+        if n <= 4:
+            # any hashable, sortable bucket id: strings, negative ints (hash(-1) == hash(-2) in CPython), tuples
+            id_sets += [("a", "b", "c")[:B], (-1, -2, 3)[:B], ((0,), (0, 1), (1, 0))[:B]]
         nt = 1 if (n >= 2) else 0
         for ids in id_sets:
             for sizes in itertools.product((1, 2, 3), repeat=B):
@@ -190,7 +223,8 @@ def _make(kind, path, bc, fl, init_epoch, mode, style):
     return data.LangDataLoader(os.path.join(path, "ref"), data.LangDataLoaderParams(**pk), **kw)
 
 
-def run_loader(ctx, kind, corpus, root, variant, bc, fl, epochs=3, fresh=(1, 2), group=None, mode=None, style=None):
+def run_loader(ctx, kind, corpus, root, variant, bc, fl, epochs=3, fresh=(1, 2), group=None, mode=None, style=None,
+               abandon=False):
     """One loader configuration: history of `epochs` epochs + fresh loaders.  Returns the per-epoch
     lists of utterance-index batches (None after a violation, "raise" for a documented refusal)."""
     api = "SpectDataLoader" if kind == "spect" else "LangDataLoader"
@@ -201,8 +235,10 @@ def run_loader(ctx, kind, corpus, root, variant, bc, fl, epochs=3, fresh=(1, 2),
     W, rank = group if group else (1, 0)
     case = {"kind": "loader", "api": kind, "lens": list(corpus.lens), "variant": variant, "bc": bc, "fl": fl,
             "epochs": epochs, "fresh": list(fresh), "group": list(group) if group else None, "mode": mode,
-            "style": style}
+            "style": style, "abandon": abandon}
     sig = {"api": api, "empty": corpus.n == 0, "bucketed": bc["B"] > 1, "distributed": W > 1}
+    if torch.get_default_dtype() != torch.float32:
+        case["default_dtype"] = sig["default_dtype"] = str(torch.get_default_dtype())
     if kind == "lang":
         sig["suppress_uttids"] = fl["suppress_uttids"]
     lengths = list(corpus.lens if kind == "spect" else corpus.rlens)
@@ -295,6 +331,20 @@ def run_loader(ctx, kind, corpus, root, variant, bc, fl, epochs=3, fresh=(1, 2),
             got = [C.canon(b) for b in loader]
             if got != hist[1]:
                 return bad("rewound-epoch-differs-from-history", {"epoch": 1, "history": hist_idx[1]}, shuffle=shuffle)
+        if abandon and hist[0]:
+            # object history: a pass abandoned after its first batch, len() asked half way, a second pass started on
+            # the same loader, then the abandoned pass resumed - both must deliver epoch 0 as the history did
+            loader.epoch = 0
+            it = iter(loader)
+            first = C.canon(next(it))
+            len(loader)
+            loader.epoch = 0
+            second = [C.canon(b) for b in loader]
+            rest = [C.canon(b) for b in it]
+            if second != hist[0]:
+                return bad("pass-after-abandoned-pass-differs-from-history", {"history": hist_idx[0]}, shuffle=shuffle)
+            if [first] + rest != hist[0]:
+                return bad("resumed-abandoned-pass-differs-from-history", {"history": hist_idx[0]}, shuffle=shuffle)
     except Exception as e:
         return bad("raises", {"error": str(e)[-300:], "where": "iteration"}, type=type(e).__name__)
     return hist_idx
@@ -329,7 +379,7 @@ def _loader_pass(ctx, spec, tier, seed):
                 corpus = cache[lens] = C.Corpus(lens, seed)
             for variant, bc, fl, epochs, fresh in plan[j::4]:
                 ctx.case(1, 1 if corpus.n >= 2 else 0)
-                out = run_loader(ctx, kind, corpus, root, variant, bc, fl, epochs, fresh)
+                out = run_loader(ctx, kind, corpus, root, variant, bc, fl, epochs, fresh, abandon=(part == "struct"))
                 if out is not None:
                     ctx.outcome([len(x) for x in out] + [out[0][:2]] if out != "raise" else out)
                     if lens == (3, 1, 3, 2, 2) and bc == dict(bs=2, B=2, dyn=True, drop=False, seed=None) and fl == FLAGS_BASE:
@@ -339,8 +389,17 @@ def _loader_pass(ctx, spec, tier, seed):
 def _dist_pass(ctx, spec, tier, seed):
     kind = spec["kind"]
     with C.Scratch("c14-dist-%s-%d" % (kind, spec["i"])) as root:
-        corpora = _corpora("quick")
-        plan = [(bc, mode) for bc in _batchings() for mode in ("raise", "uneven", "ignore")]
+        if tier == "thorough":
+            corpora = _corpora("quick")
+            plan = [(bc, mode) for bc in _batchings() for mode in ("raise", "uneven", "ignore")]
+            epochs, fresh = 3, (1, 2)
+        else:
+            # every interaction distributed x bucketed x shuffle x drop_last on every run: a handful of corpora
+            # with ties (6 utterances: divisible by both world sizes, so the strict mode is exercised too)
+            corpora = DIST_CORPORA
+            plan = [(bc, mode) for bc in _batchings(bss=(1, 2)) for mode in ("raise", "uneven", "ignore")
+                    if (bc["B"], bc["dyn"]) != (3, True)]
+            epochs, fresh = 2, (1,)
         units = [(c, j) for c in corpora for j in range(4)]
         for lens, j in units[spec["i"]::spec["of"]]:
             corpus = C.Corpus(lens, seed)
@@ -350,8 +409,8 @@ def _dist_pass(ctx, spec, tier, seed):
                     for rank in range(W):
                         ctx.case(1, 1 if corpus.n >= 2 else 0)
                         with SimulatedGroup(W, rank):
-                            per_rank.append(run_loader(ctx, kind, corpus, root, "A", bc, dict(FLAGS_BASE), 3, (1, 2),
-                                                       group=(W, rank), mode=mode))
+                            per_rank.append(run_loader(ctx, kind, corpus, root, "A", bc, dict(FLAGS_BASE), epochs, fresh,
+                                                       group=(W, rank), mode=mode, abandon=(rank == 0)))
                     if any(x is None for x in per_rank):
                         continue
                     raised = [x == "raise" for x in per_rank]
@@ -365,7 +424,7 @@ def _dist_pass(ctx, spec, tier, seed):
                     ctx.outcome([[len(e) for e in x] for x in per_rank])
                     if bc["drop"]:
                         continue  # which utterances are dropped is the samplers' (C13) and the buckets' business
-                    for e in range(3):
+                    for e in range(epochs):
                         flat = [[i for b in x[e] for i in b] for x in per_rank]
                         why = O.check_partition(flat, corpus.n, W, "ignore" if mode == "ignore" else "uneven")
                         if why:
@@ -480,30 +539,88 @@ def _window_pass(ctx, spec, tier, seed):
 
 
 # ------------------------------------------------------ direct calls of the collate functions ----
+LAYOUTS = ("plain", "grad", "view")
+
+
+def _as_layout(rows, layout, dtype):
+    """the same values as a fresh tensor / a leaf requiring grad (floats) / a non-contiguous offset view"""
+    t = torch.tensor(rows, dtype=dtype)
+    if layout == "grad" and dtype.is_floating_point:
+        return t.requires_grad_(True)
+    if layout == "view":
+        if t.dim() == 1:
+            big = torch.zeros(2 * t.size(0) + 1, dtype=dtype)
+            big[1::2] = t
+            return big[1::2]
+        big = torch.zeros(t.size(0) + 1, 2 * t.size(1), dtype=dtype)
+        big[1:, ::2] = t
+        return big[1:, ::2]
+    return t
+
+
 def _direct_pass(ctx, seed):
+    kept = [None]
     for n in (1, 2, 3):
         for lens in itertools.product((1, 2, 3), repeat=n):
             corpus = C.Corpus(lens, seed)
-            for fl in _flags("spect"):
-                for ali_none, ref_none in itertools.product(("no", "all", "first"), repeat=2):
-                    if fl["suppress_alis"] and ali_none != "no":
-                        continue
+            for layout in LAYOUTS:
+                for fl in _flags("spect"):
+                    for ali_none, ref_none in itertools.product(("no", "all", "first"), repeat=2):
+                        if fl["suppress_alis"] and ali_none != "no":
+                            continue
+                        if layout != "plain" and (ali_none, ref_none) not in (("no", "no"), ("first", "all")):
+                            continue
+                        ctx.case(1, 1 if n >= 2 else 0)
+                        _direct_spect(ctx, corpus, fl, ali_none, ref_none, layout, kept)
+                for fl in _flags("lang"):
                     ctx.case(1, 1 if n >= 2 else 0)
-                    _direct_spect(ctx, corpus, fl, ali_none, ref_none)
-            for fl in _flags("lang"):
-                ctx.case(1, 1 if n >= 2 else 0)
-                _direct_lang(ctx, corpus, fl)
+                    _direct_lang(ctx, corpus, fl, layout, kept)
+    _dtype_pass(ctx, seed)
 
 
-def _direct_spect(ctx, corpus, fl, ali_none, ref_none):
-    case = {"kind": "direct-spect", "lens": list(corpus.lens), "fl": fl, "ali_none": ali_none, "ref_none": ref_none}
-    sig = {"api": "spect_seq_to_batch"}
+def _kept_check(ctx, kept, sig, case, out):
+    """results not aliased: the batch returned by the previous call must not have changed"""
+    prev = kept[0]
+    kept[0] = (out, C.canon(out))
+    if prev is not None and C.canon(prev[0]) != prev[1]:
+        ctx.violation(dict(sig, symptom="earlier-batch-changed-by-later-call"), case, {"before": prev[1]})
+        return False
+    return True
+
+
+def _dtype_pass(ctx, seed):
+    """loaders constructed and iterated while torch's default dtype is float64: same batches, stored dtypes"""
+    old = torch.get_default_dtype()
+    other = dict(sort_batch=True, batch_first=False, suppress_alis=False, suppress_uttids=True, tokens_only=False)
+    with C.Scratch("c14-dtype") as root:
+        try:
+            torch.set_default_dtype(torch.float64)
+            for lens in DIST_CORPORA[:3]:
+                corpus = C.Corpus(lens, seed)
+                for kind in ("spect", "lang"):
+                    for bc in BATCHINGS_SMALL:
+                        for fl in (dict(FLAGS_BASE), other):
+                            ctx.case(1, 1)
+                            run_loader(ctx, kind, corpus, root, "A", bc, fl, 1, (0,))
+                for left, right, reverse, bs, drop, seed_, su in _window_plan()[::5]:
+                    ctx.case(1, 1)
+                    run_window_loader(ctx, corpus, root, "A", left, right, reverse, bs, drop, seed_, su, 0)
+        finally:
+            torch.set_default_dtype(old)
+
+
+def _direct_spect(ctx, corpus, fl, ali_none, ref_none, layout="plain", kept=None):
+    case = {"kind": "direct-spect", "lens": list(corpus.lens), "fl": fl, "ali_none": ali_none, "ref_none": ref_none,
+            "layout": layout}
+    sig = {"api": "spect_seq_to_batch", "layout": layout}
     ref2d = not fl["tokens_only"]
-    seq = []
+    seq, given = [], []
     for i in range(corpus.n):
-        ali = None if (ali_none == "all" or (ali_none == "first" and i == 0)) else torch.tensor(corpus.ali[i])
-        ref = None if (ref_none == "all" or (ref_none == "first" and i == 0)) else torch.tensor(corpus.refrows(i, ref2d))
-        tup = [torch.tensor(corpus.feat[i])]
+        ali = None if (ali_none == "all" or (ali_none == "first" and i == 0)) else _as_layout(corpus.ali[i], layout, torch.long)
+        ref = None if (ref_none == "all" or (ref_none == "first" and i == 0)) else _as_layout(corpus.refrows(i, ref2d), layout, torch.long)
+        feat = _as_layout(corpus.feat[i], layout, torch.float32)
+        given.append((feat, corpus.feat[i], ali, corpus.ali[i], ref, corpus.refrows(i, ref2d)))
+        tup = [feat]
         if not fl["suppress_alis"]:
             tup.append(ali)
         tup.append(ref)
@@ -515,6 +632,12 @@ def _direct_spect(ctx, corpus, fl, ali_none, ref_none):
     except Exception as e:
         ctx.violation(dict(sig, symptom="raises", type=type(e).__name__), case, {"error": str(e)[-300:]})
         return
+    for feat, f0, ali, a0, ref, r0 in given:
+        if feat.tolist() != f0 or (ali is not None and ali.tolist() != a0) or (ref is not None and ref.tolist() != r0):
+            ctx.violation(dict(sig, symptom="input-modified"), case, {})
+            return
+    if kept is not None and not _kept_check(ctx, kept, sig, case, out):
+        return
     # documented: an alignment / reference missing in any element makes the whole field None
     idx, why = C.check_spect_batch(out, corpus, fl, ali_none == "no", ref_none == "no", ref2d)
     if why:
@@ -523,21 +646,27 @@ def _direct_spect(ctx, corpus, fl, ali_none, ref_none):
     if not fl["sort_batch"] and idx != list(range(corpus.n)):
         ctx.violation(dict(sig, symptom="row-order-changed-without-sort"), case, {"rows": idx})
         return
-    ctx.outcome([idx, ali_none, ref_none])
+    ctx.outcome([idx, ali_none, ref_none, layout])
 
 
-def _direct_lang(ctx, corpus, fl):
-    case = {"kind": "direct-lang", "lens": list(corpus.lens), "fl": fl}
-    sig = {"api": "lang_seq_to_batch"}
+def _direct_lang(ctx, corpus, fl, layout="plain", kept=None):
+    case = {"kind": "direct-lang", "lens": list(corpus.lens), "fl": fl, "layout": layout}
+    sig = {"api": "lang_seq_to_batch", "layout": layout}
     ref2d = not fl["tokens_only"]
     seq = []
     for i in range(corpus.n):
-        ref = torch.tensor(corpus.refrows(i, ref2d))
+        ref = _as_layout(corpus.refrows(i, ref2d), layout, torch.long)
         seq.append(ref if fl["suppress_uttids"] else (ref, corpus.ids[i]))
     try:
         out = data.lang_seq_to_batch(seq, fl["batch_first"], fl["sort_batch"], not fl["suppress_uttids"])
     except Exception as e:
         ctx.violation(dict(sig, symptom="raises", type=type(e).__name__), case, {"error": str(e)[-300:]})
+        return
+    for i, item in enumerate(seq):
+        if (item if fl["suppress_uttids"] else item[0]).tolist() != corpus.refrows(i, ref2d):
+            ctx.violation(dict(sig, symptom="input-modified"), case, {})
+            return
+    if kept is not None and not _kept_check(ctx, kept, sig, case, out):
         return
     idx, why = C.check_lang_batch(out, corpus, fl, ref2d)
     if why:
@@ -571,17 +700,25 @@ def replay(case):
     seed = int(os.environ.get("VERIF_SEED", "0") or 0)
     kind = case["kind"]
     if kind == "bucket":
-        _bucket_case(ctx, tuple(case["order"]), tuple(case["assign"]), tuple(case["sizes"]), case["drop"], tuple(case["ids"]))
+        _bucket_case(ctx, tuple(case["order"]), tuple(case["assign"]), tuple(case["sizes"]), case["drop"],
+                     tuple(tuple(x) if isinstance(x, list) else x for x in case["ids"]))
     elif kind == "loader":
+        old = torch.get_default_dtype()
         with C.Scratch("c14-replay") as root:
-            corpus = C.Corpus(case["lens"], seed)
-            if case["group"]:
-                with SimulatedGroup(*case["group"]):
-                    run_loader(ctx, case["api"], corpus, root, case["variant"], case["bc"], case["fl"], case["epochs"],
-                               tuple(case["fresh"]), tuple(case["group"]), case["mode"], case["style"])
-            else:
-                run_loader(ctx, case["api"], corpus, root, case["variant"], case["bc"], case["fl"], case["epochs"],
-                           tuple(case["fresh"]), None, case["mode"], case["style"])
+            try:
+                if case.get("default_dtype") == "torch.float64":
+                    torch.set_default_dtype(torch.float64)
+                corpus = C.Corpus(case["lens"], seed)
+                grp = tuple(case["group"]) if case["group"] else None
+                args = (ctx, case["api"], corpus, root, case["variant"], case["bc"], case["fl"], case["epochs"],
+                        tuple(case["fresh"]), grp, case["mode"], case["style"], case.get("abandon", False))
+                if grp:
+                    with SimulatedGroup(*grp):
+                        run_loader(*args)
+                else:
+                    run_loader(*args)
+            finally:
+                torch.set_default_dtype(old)
     elif kind == "dist":
         with C.Scratch("c14-replay") as root:
             corpus = C.Corpus(case["lens"], seed)
@@ -601,7 +738,8 @@ def replay(case):
             run_window_loader(ctx, corpus, root, case["variant"], case["left"], case["right"], case["reverse"],
                               case["bs"], case["drop"], case["seed"], case["suppress_uttids"], case["style"])
     elif kind == "direct-spect":
-        _direct_spect(ctx, C.Corpus(case["lens"], seed), case["fl"], case["ali_none"], case["ref_none"])
+        _direct_spect(ctx, C.Corpus(case["lens"], seed), case["fl"], case["ali_none"], case["ref_none"],
+                      case.get("layout", "plain"))
     elif kind == "direct-lang":
-        _direct_lang(ctx, C.Corpus(case["lens"], seed), case["fl"])
+        _direct_lang(ctx, C.Corpus(case["lens"], seed), case["fl"], case.get("layout", "plain"))
     return ctx
